@@ -37,8 +37,9 @@ PROPERTIES = {
                 "format; re-unmarshalling the frame reproduces it; copy-from gives the same frame. Tied to the code by a "
                 "seeded state-machine walker over the generated Go types of every batch program (two instances per message, "
                 "all getters and Frame() compared after every operation).",
-        "note": _NOTE + " Physical setters: the float computation is proved in C09's model; in this check the observed raw "
-                        "value is tested against the range invariant and adopted (labelled in the evidence).",
+        "note": _NOTE + " Physical setters are replayed exactly with the Flocq model of FromPhysical + truncation "
+                        "(Gen/HistoryPhys.v) for signals of the supported class; the theorems about them inherit C09's "
+                        "axioms (the stdlib real-number axioms and Classical_Prop.classic, through Flocq).",
         "technique": "Coq invariant proof over operation histories + differential state-machine walk of generated Go code",
         "design_ref": "5.10",
     },
@@ -149,7 +150,7 @@ def run(res, replay=None):
         else:
             modes = [["hist", res.seed, 16 if res.tier == "quick" else 60, 30, "c10"]]
         total = {"cases": 0, "distinct_nontrivial": 0, "mismatches": 0, "kinds": {}, "samples": [], "operations": 0,
-                 "physical_setter_ops": 0, "op_kinds": {}}
+                 "physical_setter_ops": 0, "physical_setter_ops_exact": 0, "op_kinds": {}}
         for mode in modes:
             rc, out, err = vlib.run_pipe(exe, [str(a) for a in mode], drv, [os.path.join(scratch, "exp")], timeout=900)
             stats = ops = None
@@ -177,6 +178,7 @@ def run(res, replay=None):
             if ops:
                 total["operations"] += ops["operations"]
                 total["physical_setter_ops"] += ops["physical_setter_ops"]
+                total["physical_setter_ops_exact"] += ops.get("physical_setter_ops_exact", 0)
                 for k, v in ops["op_kinds"].items():
                     total["op_kinds"][k] = total["op_kinds"].get(k, 0) + v
         summ = [s for _, _, _, s in progs]
@@ -189,7 +191,8 @@ def run(res, replay=None):
             "kinds": total["kinds"],
             "operations": total["operations"],
             "op_kinds": total["op_kinds"],
-            "physical_setter_ops_checked_by_predicate_only": total["physical_setter_ops"],
+            "physical_setter_ops": total["physical_setter_ops"],
+            "physical_setter_ops_replayed_exactly_with_the_flocq_model": total["physical_setter_ops_exact"],
             "programs": len(progs),
             "program_distribution": {
                 "messages": sum(s["messages"] for s in summ), "signals": sum(s["signals"] for s in summ),
